@@ -310,6 +310,11 @@ def run(ctx):
             ctx.violation("step correspondence between LV.Model.Segmented and cds/intrusive/segmented_queue.h no longer holds",
                           {"correspondence": "Model/Segmented.v vs cds::intrusive::SegmentedQueue<cds::gc::HP> (enqueue, do_dequeue, segment_list)",
                            "case": c, "first_divergence": d, "diverging_cases": len(div), "monitor_cases_searched": len(cases) + len(more)}, no_input=True)
+    if ctx.thorough() and res.ok:
+        rc, out = vcheck.coqchk("LV.Properties.Properties_C08")
+        ctx.coverage["coqchk"] = "ok: " + " ".join(out.split())[:300] if rc == 0 else "FAILED"
+        if rc != 0:
+            ctx.violation("coqchk rejects LV.Properties.Properties_C08", {"theorem": "Properties_C08", "coqchk": out[-1500:]}, no_input=True)
     if not res.ok:
         ctx.violation("Coq obligations of C08 do not check: %s" % (res.failed[:2],), {"theorem": [f[2] for f in res.failed], "errors": res.failed[:3]}, no_input=True)
     nmodel = sum(1 for c in cases if c["cfg"][1] == 0)
